@@ -236,12 +236,18 @@ func (g *boxGen) setRequest(svc *v1.Service, s *boxStore) {
 		if len(ips) == 2 && g.r.Chance(1, 5) {
 			ips = ips[:1]
 		}
+		pinnedHeld := false
+		if held := svc.Status.LoadBalancer.Ingress; len(held) == 1 && len(fams) == 2 && g.r.Chance(1, 2) {
+			// a dual-stack service pins exactly the single address it holds (it must not gain the other family then)
+			ips = []string{held[0].IP}
+			pinnedHeld = true
+		}
 		sep := vfPick(g.r, []string{",", ", ", " , "})
 		val := strings.Join(ips, sep)
-		if g.r.Chance(1, 12) {
+		if g.r.Chance(1, 12) && !pinnedHeld {
 			val = "1.2.3.400"
 		}
-		if g.r.Chance(1, 4) {
+		if g.r.Chance(1, 4) || (pinnedHeld && g.r.Bool()) {
 			svc.Annotations[DeprecatedAnnotationLoadBalancerIPs] = val
 		} else {
 			svc.Annotations[AnnotationLoadBalancerIPs] = val
@@ -581,6 +587,44 @@ func (cb *cbox) seedStore(g *boxGen) {
 	n := g.r.Range(1, 5)
 	for i := 0; i < n; i++ {
 		s.Put(g.newService(s))
+	}
+	if (cb.mon.c03 || cb.mon.c06) && g.r.Chance(1, 3) {
+		// a dual-stack service (PreferDualStack, two cluster addresses) that holds one address and pins exactly it,
+		// in a pool that also offers the other family: it keeps exactly that address, whatever the spelling of the pin
+		model := vfModelPools(crs, nil)
+		for _, pn := range vfShuffled(g.r, vfSortedKeys(model)) {
+			v4, v6 := model[pn].UsableAddrs(4, 3), model[pn].UsableAddrs(6, 3)
+			if len(v4) == 0 || len(v6) == 0 || !model[pn].Admits("ns1", nil) {
+				continue
+			}
+			held := vfPick(g.r, v4)
+			if g.r.Chance(1, 3) {
+				held = vfPick(g.r, v6)
+			}
+			svc := g.newService(s)
+			svc.Namespace, svc.Labels = "ns1", nil
+			svc.Spec.Type = v1.ServiceTypeLoadBalancer
+			svc.Spec.ClusterIPs = []string{"172.16.0.1", "fd00::1"}
+			svc.Spec.IPFamilies = []v1.IPFamily{v1.IPv4Protocol, v1.IPv6Protocol}
+			svc.Spec.IPFamilyPolicy = ptr.To(v1.IPFamilyPolicyPreferDualStack)
+			svc.Spec.LoadBalancerIP = ""
+			svc.Annotations = map[string]string{}
+			switch g.r.Intn(3) {
+			case 0:
+				svc.Annotations[AnnotationLoadBalancerIPs] = held
+			case 1:
+				svc.Annotations[DeprecatedAnnotationLoadBalancerIPs] = held
+			default:
+				if strings.Contains(held, ":") {
+					svc.Annotations[DeprecatedAnnotationLoadBalancerIPs] = held
+				} else {
+					svc.Spec.LoadBalancerIP = held
+				}
+			}
+			svc.Status.LoadBalancer.Ingress = []v1.LoadBalancerIngress{{IP: held}}
+			s.Put(svc)
+			break
+		}
 	}
 	if cb.mon.c04 && g.r.Bool() {
 		// two dual-stack services asking for the same pair of addresses (one sharing key, other ports),
